@@ -67,8 +67,12 @@ fn strategy(tier: Tier) -> BoxedStrategy<Case> {
                 (0u8..2, 0u32..100_000),
                 // chatter: old datagrams keep arriving at short intervals while the connections are closing
                 prop::option::weighted(0.35, (0u32..3000, prop_oneof![1 => 10usize..80, 1 => 80usize..250], 100u32..950, any::<u16>())),
+                // outage: once a cycle's connections are established the path dies (both directions or one) at a
+                // generated instant of the closing phase and stays dead until shortly before the next cycle — the
+                // peer's FIN, or the acknowledgement of one's own, never arrives, however often it is repeated
+                prop::option::weighted(0.3, (0u8..3, prop_oneof![2 => 0u32..400, 2 => 400u32..4000, 1 => 4000u32..30_000])),
             )
-                .prop_map(move |(rnd0, rnd1, wl0, wl1, conns, lat, fates, replays, (csock, cat), chatter)| {
+                .prop_map(move |(rnd0, rnd1, wl0, wl1, conns, lat, fates, replays, (csock, cat), chatter, outage)| {
                     let mk = |rnd: Vec<u16>, wl: bool| SockCfg { v6, rnd, max_live: limit as u16, wait_lastack: wl, inactivity_ms: 10_000, max_retx: 5, ..SockCfg::default() };
                     let socks = vec![mk(rnd0, wl0), mk(rnd1, wl1)];
                     let cycle_ms = APP_PATIENCE_MS + T_END_MS + 20_000;
@@ -92,6 +96,20 @@ fn strategy(tier: Tier) -> BoxedStrategy<Case> {
                             for j in 0..n as u32 {
                                 let f = f0.wrapping_mul(j as u16 + 1).wrapping_add((j as u16).wrapping_mul(7919));
                                 events.push((cyc * cycle_ms + start + j * every, match f0 % 4 { 0 => Event::ReplayOld(f), 1 => Event::ReplayRecent(f), k => Event::ReplayTo { sock: (k - 2) as usize, f } }));
+                            }
+                        }
+                    }
+                    if let Some((kind, at)) = outage {
+                        for cyc in 0..cycles as u32 {
+                            let established_by = (limit as u32 - 1) * (2 * lat as u32 + 20) + 3 * lat as u32 + 100;
+                            let (t0, t1) = (cyc * cycle_ms + established_by + at, (cyc + 1) * cycle_ms - 3_000);
+                            match kind {
+                                0 => { events.push((t0, Event::Cut)); events.push((t1, Event::Heal)); }
+                                k => {
+                                    let (from, to) = if k == 1 { (0, 1) } else { (1, 0) };
+                                    events.push((t0, Event::CutDir { from, to }));
+                                    events.push((t1, Event::HealDir { from, to }));
+                                }
                             }
                         }
                     }
@@ -166,6 +184,16 @@ pub fn oracle(case: &Case, res: &RunResult) -> Outcome {
                     viol!("end-too-late", "socket {sock}: connection id {id}: both halves were dropped by t={lg} us but the task ended only at t={te} us (> T_end = {} ms later)", T_END_MS);
                 }
                 if te > lg { labels.insert("ended_after_letgo"); } else { labels.insert("ended_before_letgo"); }
+                // (observation only, see DESIGN O10: an endpoint may outlive "last datagram + inactivity limit": dropping the
+                // halves while data is queued behind a closed window wakes nobody, the task notices at the next 5 s tracing
+                // tick of spawn_utils::spawn and arms its timer then. Later than the configured limit, but bounded: not a
+                // violation of C08 — counted as a label)
+                let recv_id = if sock == si { x } else { x.wrapping_add(1) };
+                let last_rx = res.log.iter().filter(|r| r.dst == a && r.pkt.as_ref().is_some_and(|p| p.conn_id == recv_id || (p.ptype == refparse::ST_SYN && p.conn_id.wrapping_add(1) == recv_id)))
+                    .flat_map(|r| match &r.disp { crate::sim::Disposition::Deliver(ts) => ts.clone(), _ => vec![] }).filter(|t| *t >= ts && *t < te).max().unwrap_or(ts);
+                let limit_us = sc.socks[sock].inactivity_ms as u64 * 1000;
+                if te > lg.max(last_rx) + limit_us + 1_500_000 { labels.insert("ended_later_than_last_datagram_plus_inactivity_limit"); }
+                if te > lg.max(last_rx) + 900_000 { labels.insert("ended_by_inactivity_or_final_chance"); }
             }
             match end {
                 None => viol!("no-end-event", "socket {sock}: the connection sending with id {id} (SYN at t={ts} us) never reported the end of its task{}", letgo.map(|l| format!("; the application dropped both halves by t={l} us and the run ended at t={} us", res.t_end_us)).unwrap_or_default()),
@@ -216,8 +244,9 @@ pub fn oracle(case: &Case, res: &RunResult) -> Outcome {
     if sc.events.iter().any(|e| matches!(e.1, Event::ReplayOld(_) | Event::ReplayRecent(_) | Event::ReplayTo { .. })) { labels.insert("stale_replayed"); }
     if sc.events.iter().filter(|e| matches!(e.1, Event::ReplayOld(_) | Event::ReplayRecent(_) | Event::ReplayTo { .. })).count() >= 10 { labels.insert("chatter_while_closing"); }
     if sc.socks.iter().any(|s| !s.wait_lastack) { labels.insert("dont_wait_for_lastack"); }
+    if sc.events.iter().any(|e| matches!(e.1, Event::Cut | Event::CutDir { .. })) { labels.insert("outage_while_closing"); }
     out.labels = labels.iter().copied().collect();
-    out.nontrivial = lost_closing || case.cancel.is_some();
+    out.nontrivial = lost_closing || case.cancel.is_some() || labels.contains("outage_while_closing");
     let mut fp = Fp::default();
     for r in &res.log { if let Some(p) = &r.pkt { fp.add(((p.ptype as u64) << 32) | ((r.src.port() as u64) << 16) | (r.t_us / 1000) % 9973); fp.add(matches!(r.disp, crate::sim::Disposition::Dropped(_)) as u64); } }
     out.fingerprint = fp.get();
